@@ -59,9 +59,10 @@ theorem htmlL_eq_render (ks : List LNode) (h : WFLL ks) : htmlL (toNodeL ks) = r
     simp [toNodeL, htmlL, toksL, renderToks_append, html_eq_render k h.1, htmlL_eq_render ks h.2]
 end
 
-/-- well-formedness of a document in terms of its token sequence (decidable): every token is in the
-    serialiser's image and no two data runs are adjacent -/
-def ToksOK (ts : List Token) : Prop := (∀ t ∈ ts, TokOK t) ∧ NoAdjData ts
+/-- well-formedness of a document in terms of its token sequence: every token is in the serialiser's image
+    and is followed by something that keeps it a token of its own (`ListOK`; `listOK_of_noAdjData` gives the
+    simple sufficient condition "no two data runs adjacent" when the data singletons `<` / `&` do not occur) -/
+def ToksOK (ts : List Token) : Prop := ListOK ts
 
 /-! #### C01c — values come back unchanged -/
 
@@ -153,7 +154,7 @@ theorem roundtrip_single (dt : Option Str) (n : Str) (a : AttrState) (sc : Bool)
       feedTokens toks = .doc ⟨(doctypeToks dt).foldl stepD none, some (LNode.elem n a sc kids).toNode.reintake⟩ false := by
   refine ⟨doctypeToks dt ++ (LNode.elem n a sc kids).toks, ?_, ?_⟩
   · rw [docHTML_single dt n a sc kids hwf hw]
-    exact lexStrict_renderToks _ hok.1 hok.2
+    exact lexStrict_renderToks _ hok
   · have hroot := root_rt n a sc kids hwf
     have hpre : runT TState.init (doctypeToks dt ++ (LNode.elem n a sc kids).toks)
         = runT TState.init (LNode.elem n a sc kids).toks := by
@@ -191,7 +192,7 @@ theorem roundtrip_single (dt : Option Str) (n : Str) (a : AttrState) (sc : Bool)
         exact ih d0 (fun t' ht' => hall t' (List.mem_cons_of_mem _ ht'))
     have hno : ∀ t ∈ (LNode.elem n a sc kids).toks, ∀ x, t ≠ .decl x ∧ t ≠ .unknownDecl x := by
       intro t ht x
-      have hT := hok.1 t (List.mem_append_right _ ht)
+      have hT := (ListOK.tokOK hok) t (List.mem_append_right _ ht)
       constructor
       · intro e; subst e
         -- a declaration among the element's tokens would have to be a text-like token of the tree: it is not
@@ -243,7 +244,7 @@ theorem roundtrip_multi (ks : List LNode) (hwf : WFLL ks) (hok : ToksOK (toksL k
   · have : docHTML none (.elem wrapperName AttrState.empty false (toNodeL ks)) = renderToks (toksL ks) := by
       simp [docHTML, Node.innerHTML, htmlL_eq_render ks hwf]
     rw [this]
-    exact lexStrict_renderToks _ hok.1 hok.2
+    exact lexStrict_renderToks _ hok
   · unfold feedTokens
     rw [hmulti]
     simp only
@@ -292,7 +293,7 @@ theorem roundtrip_multi (ks : List LNode) (hwf : WFLL ks) (hok : ToksOK (toksL k
       · subst e; simp
       · constructor
         · intro e; subst e; exact decl_not_inL ks hwf x ht
-        · intro e; subst e; exact absurd (hok.1 _ ht) (by simp [TokOK])
+        · intro e; subst e; exact absurd ((ListOK.tokOK hok) _ ht) (by simp [TokOK])
       · rcases e with e | e
         · subst e; simp
         · simp at e
@@ -368,5 +369,9 @@ example : lexStrict "<div id=\"a&quot;b\" checked >x&amp;y<br /><!--c--></div>".
     some [.start "div".toList [("id".toList, some "a\"b".toList), ("checked".toList, none)],
           .data "x".toList, .entity "amp".toList, .data "y".toList, .startend "br".toList [],
           .comment "c".toList, .end_ "div".toList] := by decide
+
+example : lexStrict "<p >1 < 2 & 3&#x41;&#65;</p>".toList =
+    some [.start "p".toList [], .data "1 ".toList, .data "<".toList, .data " 2 ".toList, .data "&".toList,
+          .data " 3".toList, .charref "x41".toList, .charref "65".toList, .end_ "p".toList] := by decide
 
 end AHP.C01
